@@ -1,7 +1,9 @@
 (* C04/Props.v -- property theorems only.  Every theorem holds for every correctly-rounded-operation
    oracle (fdiv, fmul, fround) and every matrix-inverse oracle: they are universally quantified. *)
 From Coq Require Import ZArith List Bool String.
-From PV Require Import Base.Tok Base.TokArith C04.Model C04.Proofs.
+From PV Require Import Base.Tok Base.TokArith Base.NpSearch C04.Model C04.Proofs C04.Model2 C04.Spec C04.Proofs2 C04.Params
+  C04.ParamsProofs C04.Link.
+From PV Require C01.Model C02.Model C02.Spec.
 Import ListNotations.
 Open Scope string_scope.
 Open Scope list_scope.
@@ -147,3 +149,123 @@ Example C04_ex_rejects :
        (("spike_times.npy", mkarr DI64 [3] [TNum 1 1; TNum 1 0; TNum 3 0]) :: ex_files) (TNum 1 1) (Some 2)
   = Err ERejected.
 Proof. vm_compute. reflexivity. Qed.
+
+(* ================= stage 3 ================= *)
+
+(* ---- the declarative specification (Spec.v) ---- *)
+(* "the first existing file of the priority list" is well defined on a directory in which every name pattern
+   has at most one match (part of well-formedness) *)
+Theorem C04_source_unique : forall ps fs x y,
+  unique_matches ps fs -> Source ps fs x -> Source ps fs y -> x = y.
+Proof. exact Source_functional. Qed.
+Print Assumptions C04_source_unique.
+
+(* the declarative reading of "NaN/inf replaced by zero, singleton dimensions squeezed" determines the value *)
+Theorem C04_full_read : forall a v, FullRead a v <-> v = read_full a.
+Proof. exact FullRead_iff. Qed.
+Print Assumptions C04_full_read.
+
+(* THE specification theorem: whenever the loader returns a model, every attribute named in the statement is
+   related to the directory as Spec.v says -- squeeze/scrub of the first existing file of its priority list, or
+   its documented default; spike times monotone; extra attributes exactly the matching spike_*.npy files;
+   nothing created but the spike-cluster copy and the inverse whitening matrix, each only when missing *)
+Theorem C04_load_spec : forall fdiv fmul fround inv fs rate ncd mx,
+  loadx fdiv fmul fround inv fs rate ncd = XOk mx -> Load_spec fdiv fmul fround inv fs rate ncd mx.
+Proof. exact load_spec_thm. Qed.
+Print Assumptions C04_load_spec.
+
+(* totality: on a well-formed directory (wf_b, evaluated by the comparator on every generated case) loading
+   either returns a model or is the documented rejection of non-monotonic spike times -- never an assertion
+   failure, a missing-file error, the conflicting-files exit or a state outside the model *)
+Theorem C04_load_total : forall fdiv fmul fround inv fs rate ncd,
+  wf_b fdiv fmul fround fs rate ncd = true ->
+  if monotone_b fdiv fmul fround fs rate
+  then exists mx, loadx fdiv fmul fround inv fs rate ncd = XOk mx
+  else loadx fdiv fmul fround inv fs rate ncd = XErr ERejected.
+Proof. exact load_total. Qed.
+Print Assumptions C04_load_total.
+
+Theorem C04_rejected_iff : forall fdiv fmul fround inv fs rate ncd,
+  wf_b fdiv fmul fround fs rate ncd = true ->
+  (loadx fdiv fmul fround inv fs rate ncd = XErr ERejected <-> monotone_b fdiv fmul fround fs rate = false).
+Proof. exact load_rejected_iff. Qed.
+Print Assumptions C04_rejected_iff.
+
+(* loadx (Model2.v: _load_data with the conflict test and spike_times_reordered.npy at their place) extends load:
+   the theorems above about [load] apply to the model it returns *)
+Theorem C04_loadx_load : forall fdiv fmul fround inv fs rate ncd mx,
+  loadx fdiv fmul fround inv fs rate ncd = XOk mx ->
+  load fdiv fmul fround inv fs rate ncd = Ok (lx mx) /\ clusters_conflict fs = false /\
+  load_reorder fdiv fs rate (hd 0 (a_shape (l_times (lx mx)))) = Ok (lx_reordered mx).
+Proof. exact loadx_inv. Qed.
+Print Assumptions C04_loadx_load.
+
+(* ---- the three construction routes pass the same constructor arguments ---- *)
+Theorem C04_routes_agree : forall dir names dtype offset rate ncd,
+  is_abs dir = true -> Forall (fun n => is_abs n = false) names -> tok_eqb rate tzero = false ->
+  let c := mkctor dir (map (join dir) names) dtype offset rate (Some ncd) in
+  init_args (route_kwargs dir names dtype offset rate ncd) = Some c /\
+  load_model_args dir (route_params names dtype offset rate ncd) = Some c /\
+  load_model_args dir (route_params_alt dir names dtype offset rate ncd) = Some c.
+Proof. exact routes_agree. Qed.
+Print Assumptions C04_routes_agree.
+
+(* ---- raw traces, through the readers of C01 / C02 ---- *)
+(* model.traces = reader[:, channel_map] is the derived reader with the one deferred entry ('cols', channel_map)
+   (C02_cols_reader); indexing it at any row index of C02's reading returns np.atleast_2d(T[it]) of
+   T = traces_full raw channel_map (C02_reader_commute over C01's multi-file reader model) *)
+Theorem C04_traces_reader : forall (D : Type) (sem : C02.Model.code -> D -> tok -> option tok)
+    (dsem : C02.Model.code -> D -> option D) (d0 : D) (c0 : Z) (raw : list (list (list tok))) (cmap : list Z)
+    (rows : list (list tok)) (it : C01.Model.item),
+  Forall (fun r => zlen r = c0) (List.concat raw) -> Forall (fun c => 0 <= c < c0) cmap ->
+  traces_full raw cmap = Some rows ->
+  C02.Spec.row_item (map zlen raw) it ->
+  C02.Model.reader_getitem sem dsem (C01.Model.getitem_rows raw) d0 c0 [C02.Model.OCols (C01.Model.CList cmap)] it None =
+    option_map C02.Model.GRows (C02.Model.index_arr (C02.Model.mkarr d0 (zlen cmap) rows) it).
+Proof. exact traces_link. Qed.
+Print Assumptions C04_traces_reader.
+
+(* ---- non-vacuity ---- *)
+Definition ex_files2 : files :=
+  ("spike_times_reordered.npy", mkarr DI64 [3; 1] [TNum 1 1; TNum 1 2; TNum 3 1]) ::
+  ("amplitudes.npy", mkarr DF64 [3] [TNum 1 0; TNInf; TNaN]) :: ex_files.
+Example C04_ex_wf :
+  wf_b ex_div ex_mul ex_round ex_files2 (TNum 1 1) (Some 2) = true /\
+  monotone_b ex_div ex_mul ex_round ex_files2 (TNum 1 1) = true /\
+  match loadx ex_div ex_mul ex_round (fun a => a) ex_files2 (TNum 1 1) (Some 2) with
+  | XOk mx => lx_reordered mx = Some (mkarr DF64 [3] [TNum 1 1; TNum 1 2; TNum 3 1]) /\
+              l_amps (lx mx) = Some (mkarr DF64 [3] [TNum 1 0; TNum 0 0; TNum 0 0])
+  | _ => False
+  end.
+Proof. vm_compute. repeat split. Qed.
+(* a well-formed directory with decreasing times: rejected; with both cluster files: the conflict exit (and wf_b is false) *)
+Example C04_ex_total_rejects :
+  let fs := ("spike_times.npy", mkarr DI64 [3] [TNum 1 1; TNum 1 0; TNum 3 0]) :: ex_files in
+  wf_b ex_div ex_mul ex_round fs (TNum 1 1) (Some 2) = true /\ monotone_b ex_div ex_mul ex_round fs (TNum 1 1) = false /\
+  loadx ex_div ex_mul ex_round (fun a => a) fs (TNum 1 1) (Some 2) = XErr ERejected.
+Proof. vm_compute. repeat split. Qed.
+Example C04_ex_conflict :
+  let fs := ("spike_clusters.npy", mkarr DI32 [3] [TNum 0 0; TNum 1 0; TNum 1 0]) ::
+            ("spikes.clusters.npy", mkarr DI32 [3] [TNum 0 0; TNum 1 0; TNum 1 0]) :: ex_files in
+  wf_b ex_div ex_mul ex_round fs (TNum 1 1) (Some 2) = false /\
+  loadx ex_div ex_mul ex_round (fun a => a) fs (TNum 1 1) (Some 2) = XConflict.
+Proof. vm_compute. repeat split. Qed.
+Example C04_ex_routes :
+  let c := mkctor "/D" ["/D/raw0.dat"; "/D/raw1.bin"] "int16" 7 (TNum 15 11) (Some 5) in
+  init_args (route_kwargs "/D" ["raw0.dat"; "raw1.bin"] "int16" 7 (TNum 15 11) 5) = Some c /\
+  load_model_args "/D" (route_params ["raw0.dat"; "raw1.bin"] "int16" 7 (TNum 15 11) 5) = Some c /\
+  load_model_args "/D" (route_params_alt "/D" ["raw0.dat"; "raw1.bin"] "int16" 7 (TNum 15 11) 5) = Some c /\
+  (* a bare string for one file; a later lower-case name overrides an earlier upper-case one *)
+  load_model_args "/D" [("DAT_PATH", PStr "nope.dat"); ("dtype", PStr "int16"); ("dat_path", PStr "raw0.dat");
+                        ("sample_rate", PInt 30000)] =
+    Some (mkctor "/D" ["/D/raw0.dat"] "int16" 0 (TNum 1875 4) None).
+Proof. vm_compute. repeat split. Qed.
+(* two raw files of 1 and 2 rows, 3 channels in the files, channel map [2; 0]: traces[1:3] *)
+Example C04_ex_traces_reader :
+  let raw := [[[TNum 1 0; TNum 1 1; TNum 3 0]]; [[TNum 1 2; TNum 5 0; TNum 3 1]; [TNum 7 0; TNum 1 3; TNum 9 0]]] in
+  traces_full raw [2; 0] = Some [[TNum 3 0; TNum 1 0]; [TNum 3 1; TNum 1 2]; [TNum 9 0; TNum 7 0]] /\
+  C02.Spec.row_item (map zlen raw) (C01.Model.ISlice (Some 1) (Some 3) None) /\
+  C02.Model.reader_getitem (fun _ (_ : Z) a => Some a) (fun _ d => Some d) (C01.Model.getitem_rows raw) 0 3
+      [C02.Model.OCols (C01.Model.CList [2; 0])] (C01.Model.ISlice (Some 1) (Some 3) None) None =
+    Some (C02.Model.GRows (C02.Model.mkarr 0 2 [[TNum 3 1; TNum 1 2]; [TNum 9 0; TNum 7 0]])).
+Proof. split; [vm_compute; reflexivity|]. split; [|vm_compute; reflexivity]. apply C02.Spec.row_item_b_spec. vm_compute. reflexivity. Qed.
